@@ -1,6 +1,7 @@
 ------------------------------ MODULE C17Trace ------------------------------
 (* Judge for C17 on the call counts measured on the REAL combinators.  One line per (family, n):                     *)
-(*   {"fam":f,"n":n,"calls1":c,"calls2":c,"ok":bool}     two runs of the same (grammar object, input)                 *)
+(*   {"fam":f,"n":n,"calls1":c,"calls2":c,"ok":bool,"exp":bool}   two runs of the same (grammar object, input);       *)
+(*   fam = family/variant: "good" inputs are in the family's language, "bad" ones are not (exp = which)               *)
 (* Property: for every family and every n >= MinN for which 2n was also measured: calls(2n) <= 16 * calls(n);        *)
 (* the call count of a given grammar and input is the same on every run; the inputs are accepted.                    *)
 EXTENDS Integers, Sequences, FiniteSets, TLC, Json, IOUtils
@@ -16,7 +17,7 @@ Rows(f) == {i \in 1..Len(Trace) : Trace[i].fam = f}
 Double(i) == {j \in Rows(Trace[i].fam) : Trace[j].n >= 2 * Trace[i].n - 1 /\ Trace[j].n <= 2 * Trace[i].n + 1}
 
 LineOK ==
-  /\ Ev.ok                                               \* the input is in the family's language and was parsed
+  /\ Ev.ok = Ev.exp                                      \* inputs of the family's language are parsed, the others are rejected
   /\ Ev.calls1 = Ev.calls2                               \* deterministic call count
   /\ Ev.n >= MinN => \A j \in Double(l) :
         IF Trace[j].calls1 <= 16 * Ev.calls1 THEN TRUE
